@@ -34,14 +34,14 @@ def show_reply(r):
 _build_cache = {}
 
 
-def build_tool(name, tags="verif"):
+def build_tool(name, tags="verif", race=False):
     """Build harness/cmd/<name> into a per-run scratch dir (always from /repo's current tree)."""
-    key = (name, tags)
+    key = (name, tags, race)
     if key in _build_cache:
         return _build_cache[key]
     d = common.scratch("bin-")
-    out = os.path.join(d, name)
-    common.go_build(os.path.join(common.ROOT, "harness"), "./cmd/" + name, out, tags=tags)
+    out = os.path.join(d, name + ("-race" if race else ""))
+    common.go_build(os.path.join(common.ROOT, "harness"), "./cmd/" + name, out, tags=tags, race=race)
     _build_cache[key] = out
     return out
 
